@@ -9,7 +9,10 @@ All groups of a payload run in ONE process in the given order: the history of se
 the input.  After every initialisation both classes are used once (touch) so that a group's effect on later groups
 depends on its setting only.
 Output:  {"out": [[result per op] per group], "init": ["ok" | ["EXC", name] | ["ERR", text] per group],
-          "stored": [[length bits ...], [half-length bits ...]] per group (what the setting module holds)}
+          "stored": [[length bits ...], [half-length bits ...]] per group (what the setting module holds),
+          "alias": [[victim op index, culprit op index, message] ...] per group: list objects of earlier calls (results of
+                   separation_vector, lists corrected in place, argument lists) are kept alive for the whole group and
+                   re-read after every later call}
 """
 from drvutil import read_payload, emit, f2b, b2f, exc_enum, assert_scratch
 import jellyfysh  # noqa: F401
@@ -54,6 +57,45 @@ def touch(st):
                 pass
 
 
+class Keeper(object):
+    """Keeps the list objects of earlier calls alive (results of separation_vector, the lists corrected in place,
+    the argument lists) and re-reads them after every later call: a kept list must stay bit for bit what it was, and a
+    returned list must be a new object."""
+
+    def __init__(self):
+        self.kept = []          # (op index, role, list object, snapshot bits)
+        self.alias = []         # [victim op index, culprit op index, message]
+        self.cur = 0
+
+    @staticmethod
+    def bits(v):
+        return [f2b(x) for x in v]
+
+    def fresh(self, obj, role):
+        """obj was returned by the current call: it must not be one of the kept objects"""
+        for (j, r, o, _) in self.kept:
+            if o is obj:
+                self.alias.append([j, self.cur, "%s of op %d is the same list object as the %s of op %d"
+                                   % (role, self.cur, r, j)])
+                return
+
+    def keep(self, obj, role):
+        self.kept.append((self.cur, role, obj, self.bits(obj)))
+
+    def recheck(self):
+        for n, (j, r, o, snap) in enumerate(self.kept):
+            try:
+                now = self.bits(o)
+            except Exception:  # noqa
+                now = None
+            if now != snap:
+                self.alias.append([j, self.cur, "the %s of op %d was changed by op %d" % (r, j, self.cur)])
+                self.kept[n] = (j, r, o, now if now is not None else snap)
+
+
+KEEPER = Keeper()
+
+
 def run_op(pb, op):
     k = op[0]
     if k == "pos_entry":
@@ -67,12 +109,14 @@ def run_op(pb, op):
         r = pb.correct_position(v)
         if r is not None:
             return ["ERR", "correct_position returned a value"]
+        KEEPER.keep(v, "list corrected in place by correct_position")
         return [f2b(x) for x in v]
     if k == "sep":
         v = [b2f(b) for b in op[1]]
         r = pb.correct_separation(v)
         if r is not None:
             return ["ERR", "correct_separation returned a value"]
+        KEEPER.keep(v, "list corrected in place by correct_separation")
         return [f2b(x) for x in v]
     if k == "sepvec":
         ref = [b2f(b) for b in op[1]]
@@ -81,12 +125,20 @@ def run_op(pb, op):
         r = pb.separation_vector(ref, tgt)
         if [f2b(x) for x in ref] != [f2b(x) for x in ref0] or [f2b(x) for x in tgt] != [f2b(x) for x in tgt0]:
             return ["ERR", "separation_vector changed its arguments"]
+        if r is ref or r is tgt:
+            return ["ERR", "separation_vector returned one of its arguments"]
+        if not isinstance(r, list):
+            return ["ERR", "separation_vector did not return a list"]
+        KEEPER.fresh(r, "result of separation_vector")
+        KEEPER.keep(r, "result of separation_vector")
+        KEEPER.keep(ref, "reference position passed to separation_vector")
+        KEEPER.keep(tgt, "target position passed to separation_vector")
         return [f2b(x) for x in r]
     return ["ERR", "unknown op"]
 
 
 groups = read_payload()["groups"]
-out, inits, stored_all = [], [], []
+out, inits, stored_all, alias_all = [], [], [], []
 for g in groups:
     setting.reset()
     for h in g.get("history") or []:
@@ -113,16 +165,20 @@ for g in groups:
     except Exception as e:  # noqa
         init = ["EXC", exc_enum(e)]
     res = []
-    for op in g["ops"]:
+    KEEPER = Keeper()
+    for opi, op in enumerate(g["ops"]):
         if init != "ok":
             res.append(list(init))
             continue
+        KEEPER.cur = opi
         try:
             res.append(run_op(pb, op))
         except Exception as e:  # noqa
             res.append(["EXC", exc_enum(e)])
+        KEEPER.recheck()
     out.append(res)
     inits.append(init)
     stored_all.append(stored)
+    alias_all.append(KEEPER.alias)
 setting.reset()
-emit({"out": out, "init": inits, "stored": stored_all})
+emit({"out": out, "init": inits, "stored": stored_all, "alias": alias_all})
